@@ -10,12 +10,13 @@ Proof. vm_compute. reflexivity. Qed.
 Lemma real_schemas_wf ty s : In (ty, s) all_schemas -> wf_schema s = true.
 Proof. intros H. exact (proj1 (forallb_forall _ _) real_schemas_wf_b (ty, s) H). Qed.
 
-(* the types whose decoder has a lenient place: the transaction (rlp:"nil"
-   recipient) and what contains it, Validator(s), ValidatorIndex,
-   EvidenceDoubleSign.  Ids are the positions in the harness inventory:
-   1 Block, 2 Transaction, 6 Body, 7 Transactions, 9 Validator, 12 Validators,
-   13 ValidatorIndex, 36 EvidenceDoubleSign, 41 MarkedBlockInfo, 47 BlocksData. *)
-Definition lenient_types : list N := [1; 2; 6; 7; 9; 12; 13; 36; 41; 47].
+(* the types whose decoder still has a lenient place: the transaction (rlp:"nil"
+   recipient) and what contains it, and EvidenceDoubleSign (entries in any
+   order).  Ids are the positions in the harness inventory: 1 Block,
+   2 Transaction, 6 Body, 7 Transactions, 36 EvidenceDoubleSign,
+   41 MarkedBlockInfo, 47 BlocksData.  (Validator, Validators and
+   ValidatorIndex left this list with the fix commits bcc4703 and 8fe8f02.) *)
+Definition lenient_types : list N := [1; 2; 6; 7; 36; 41; 47].
 Lemma lenient_types_exact :
   map fst (filter (fun p => negb (strict (snd p))) all_schemas) = lenient_types.
 Proof. vm_compute. reflexivity. Qed.
@@ -34,8 +35,7 @@ Proof.
   apply accept_canonical_strict; [exact (real_schemas_wf _ _ Hin)|assumption|assumption].
 Qed.
 
-(* ---- witnesses of the listed findings (replayed against the implementation by the
-   harness: corpus/C14) ------------------------------------------------------------ *)
+(* ---- witnesses (replayed against the implementation by the harness: corpus/C14) ---- *)
 (* a contract-creation transaction whose recipient is written as an empty LIST *)
 Definition w_tx : bytes := [206; 7; 1; 130; 82; 8; 192; 5; 131; 1; 2; 3; 128; 128; 128].
 Definition w_tx_re : bytes := [206; 7; 1; 130; 82; 8; 128; 5; 131; 1; 2; 3; 128; 128; 128].
@@ -43,29 +43,32 @@ Lemma w_tx_accepted : exists v, decode_t S_types_Transaction w_tx = Some v /\
   encode_t S_types_Transaction v = Some w_tx_re.
 Proof. eexists. split; [vm_compute; reflexivity|]. vm_compute; reflexivity. Qed.
 
-(* ValidatorIndex: two addresses out of order *)
+(* ---- regression witnesses: accepted before the fix commits, rejected now -------------- *)
+(* ValidatorIndex: two addresses out of order (fixed by 8fe8f02) *)
 Definition w_index : bytes :=
   [234; 148; 9;0;0;0;0;0;0;0;0;0;0;0;0;0;0;0;0;0;0;0; 148; 1;0;0;0;0;0;0;0;0;0;0;0;0;0;0;0;0;0;0;0].
-Lemma w_index_accepted : exists v b', decode_t S_state_ValidatorIndex w_index = Some v /\
-  encode_t S_state_ValidatorIndex v = Some b' /\ bytes_eqb b' w_index = false.
-Proof.
-  eexists. eexists. split; [vm_compute; reflexivity|]. split; [vm_compute; reflexivity|]. vm_compute; reflexivity.
-Qed.
+Lemma w_index_rejected : decode_t S_state_ValidatorIndex w_index = None.
+Proof. vm_compute. reflexivity. Qed.
 
-(* EvidenceDoubleSign with a one-byte "hash" *)
+(* EvidenceDoubleSign with a one-byte "hash" (fixed by 201ba78) *)
 Definition w_evidence : bytes := [198; 3; 1; 195; 194; 7; 9].
-Lemma w_evidence_accepted : exists v b', decode_t S_staking_EvidenceDoubleSign w_evidence = Some v /\
-  encode_t S_staking_EvidenceDoubleSign v = Some b' /\ bytes_eqb b' w_evidence = false.
-Proof.
-  eexists. eexists. split; [vm_compute; reflexivity|]. split; [vm_compute; reflexivity|]. vm_compute; reflexivity.
-Qed.
+Lemma w_evidence_rejected : decode_t S_staking_EvidenceDoubleSign w_evidence = None.
+Proof. vm_compute. reflexivity. Qed.
 
-(* a Validator record whose Expelled byte is 5 *)
+(* a Validator record whose Expelled byte is 5 (fixed by bcc4703) *)
 Definition w_validator : bytes := [248;66;248;63;110;148;1;0;0;0;0;0;0;0;0;0;0;0;0;0;0;0;0;0;0;0;148;2;0;0;0;0;0;0;0;0;0;0;0;0;0;0;0;0;0;0;0;1;1;128;128;3;4;9;1;9;1;128;128;128;128;128;128;192;194;128;128;5].
-Lemma w_validator_accepted : exists v b', decode_t S_state_Validator w_validator = Some v /\
-  encode_t S_state_Validator v = Some b' /\ bytes_eqb b' w_validator = false.
+Lemma w_validator_rejected : decode_t S_state_Validator w_validator = None.
+Proof. vm_compute. reflexivity. Qed.
+
+(* ---- still open: EvidenceDoubleSign with two entries in decreasing hash order ------- *)
+Definition w_evidence_unsorted : bytes := [248;74;3;1;248;70;226;160;0;0;0;0;0;0;0;0;0;0;0;0;0;0;0;0;0;0;0;0;0;0;0;0;0;0;0;0;0;0;0;2;9;226;160;0;0;0;0;0;0;0;0;0;0;0;0;0;0;0;0;0;0;0;0;0;0;0;0;0;0;0;0;0;0;0;1;8].
+Definition w_evidence_sorted : bytes := [248;74;3;1;248;70;226;160;0;0;0;0;0;0;0;0;0;0;0;0;0;0;0;0;0;0;0;0;0;0;0;0;0;0;0;0;0;0;0;1;8;226;160;0;0;0;0;0;0;0;0;0;0;0;0;0;0;0;0;0;0;0;0;0;0;0;0;0;0;0;0;0;0;0;2;9].
+Lemma w_evidence_unsorted_accepted : exists v,
+  decode_t S_staking_EvidenceDoubleSign w_evidence_unsorted = Some v /\
+  encode_t S_staking_EvidenceDoubleSign v = Some w_evidence_sorted /\
+  decode_t S_staking_EvidenceDoubleSign w_evidence_sorted = Some v.
 Proof.
-  eexists. eexists. split; [vm_compute; reflexivity|]. split; [vm_compute; reflexivity|]. vm_compute; reflexivity.
+  eexists. split; [vm_compute; reflexivity|]. split; vm_compute; reflexivity.
 Qed.
 
 Definition canonical_full : Prop :=
